@@ -1467,8 +1467,8 @@ func (c01) Gen(rng *rand.Rand, tier string, emit func(string)) {
 	if tier == "thorough" {
 		// the `small` plans: 9 files per format and seed (6 seeds: 54 per format), 1..3 records, the nine lay-outs
 		// LF / CR LF / mixed x missing final newline / one / two final line ends, EVERY buffer size 2..len+2
-		plans = []plan{{"fa", 30, 6, false, 400, false}, {"fq", 30, 6, false, 400, false}, {"gb", 6, 5, false, 0, false}, {"em", 6, 5, false, 0, false}, {"gb", 8, 3, true, 700, false}, {"em", 8, 3, true, 700, false},
-			{"fa", 9, 3, true, 1000, true}, {"fq", 9, 3, true, 1000, true}, {"gb", 9, 2, true, 1000, true}, {"em", 9, 2, true, 1000, true}}
+		plans = []plan{{"fa", 24, 6, false, 400, false}, {"fq", 24, 6, false, 400, false}, {"gb", 6, 5, false, 0, false}, {"em", 6, 5, false, 0, false}, {"gb", 5, 3, true, 700, false}, {"em", 5, 3, true, 700, false},
+			{"fa", 9, 3, true, 1000, true}, {"fq", 9, 3, true, 1000, true}, {"gb", 9, 2, true, 800, true}, {"em", 9, 2, true, 800, true}}
 	}
 	k := 0
 	for _, pl := range plans {
